@@ -248,19 +248,24 @@ def AFTResult_FIB_FAILED : Nat := 4
 
 structure IPv4EntryC where
   Prefix : String
+  /-- `GetIpv4Entry()`: the payload, opaque here -/
+  Ipv4Entry : Option Unit := none
   deriving DecidableEq, Repr, Inhabited
 
 structure IPv6EntryC where
   Prefix : String
+  Ipv6Entry : Option Unit := none
   deriving DecidableEq, Repr, Inhabited
 
 structure LabelEntryC where
   /-- `GetLabelUint64()` -/
   LabelUint64 : Nat
+  LabelEntry : Option Unit := none
   deriving DecidableEq, Repr, Inhabited
 
 structure NHGEntryC where
   Id : Nat
+  NextHopGroup : Option Unit := none
   deriving DecidableEq, Repr, Inhabited
 
 structure NHEntryC where
@@ -358,6 +363,37 @@ structure COpResult where
   Details : Option OpDetailsResults
   deriving DecidableEq, Repr, Inhabited
 
+/-! ## the RIB's orchestration (rib/rib.go: addEntryInternal and the held operations) -/
+
+/-- `constants.OpType` / `constants.AFT` by value -/
+def constants_Add : Nat := 1
+def constants_Delete : Nat := 2
+def constants_Replace : Nat := 3
+def constants_All : Nat := 1
+def constants_IPv4 : Nat := 2
+def constants_NextHop : Nat := 3
+def constants_NextHopGroup : Nat := 4
+def constants_MPLS : Nat := 5
+def constants_IPv6 : Nat := 6
+
+/-- a value held in a Go `any` variable: a string, a number, or nil -/
+inductive AnyKey where
+  | none
+  | str (s : String)
+  | num (n : Nat)
+  deriving DecidableEq, Repr, Inhabited
+
+/-- `rib.pendingEntry` -/
+structure PendingEntry where
+  ni : String
+  op : AFTOperationC
+  deriving DecidableEq, Repr, Inhabited
+
+/-- `rib.OpResult` as far as it is compared: the operation's id -/
+structure RibOpResult where
+  ID : Nat
+  deriving DecidableEq, Repr, Inhabited
+
 /-- the error of a Go `(pointer, error)` result pair of which exactly one is nil -/
 def errOf {α : Type} (p : Option α) (e : Status) : Option Status :=
   match p with
@@ -383,6 +419,17 @@ inductive Eff where
   | getRIB (ni : String) (filter : List Nat)
   | addEntry (ni : String) (op : Option AFTOperation)
   | deleteEntry (ni : String) (op : Option AFTOperation)
+  /-- `niR.AddIPv4(entry, explicitReplace)` and its siblings: the instance's table is changed -/
+  | addIPv4 (ni : String) (e : Option IPv4EntryC) (replace : Bool)
+  | addIPv6 (ni : String) (e : Option IPv6EntryC) (replace : Bool)
+  | addMPLS (ni : String) (e : Option LabelEntryC) (replace : Bool)
+  | addNHG (ni : String) (e : Option NHGEntryC) (replace : Bool)
+  | addNH (ni : String) (e : Option NHEntryC) (replace : Bool)
+  /-- `handleReferences(r, niR, original, new)` / `r.handleNHGReferences(niR, original, new)` -/
+  | handleReferences (ni : String) (orig : Option Unit) (new : Option Unit)
+  | handleNHGReferences (ni : String) (orig : Option Unit) (new : Option Unit)
+  /-- `r.callResolvedEntryHook(optype, ni, aft, key)` -/
+  | resolvedHook (optype : Nat) (ni : String) (aft : Nat) (key : AnyKey)
   /-- the client's `addSendErr(err)` -/
   | addSendErr (e : Option Status)
   /-- the client's `q(m)`: the request is handed to the sender goroutine -/
